@@ -660,6 +660,13 @@ func judge(o outcome, res string, want []int) []string {
 
 func (w *worker) violate(c *tcase, cmd, kind, text, detail string) {
 	key := fmt.Sprintf("%s/%s/%s", cmd, topKind(c.Keys), kind)
+	w.sh.r.Add("failing_executions", 1)
+	// a systematic failure (say, UID SEARCH answering sequence numbers) fails nearly every case: the
+	// first 60 signatures are written out, the rest is only counted
+	if w.sh.r.NumViolations() >= 60 {
+		w.sh.r.Add("failing_executions_after_60_signatures", 1)
+		return
+	}
 	w.sh.r.Violate(key, fmt.Sprintf("box %s (%s): %s %s\n%s\nspec expects %s seqs=%v uids=%v",
 		w.def.Def, w.describeBox(), cmd2text(cmd), text, detail, c.Exp.Res, c.Exp.Seqs, c.Exp.Uids),
 		map[string]interface{}{"box": w.def, "case": c, "text": text})
